@@ -11,6 +11,9 @@
 EXTENDS Defs, TLC
 
 CONSTANTS MaxLen
+DevOBV == {"OBV_volume_rule"}
+DevRMA == {"RMA_seed_absolute_index"}
+DevWrap == {"lookback_wraps"}
 
 \* (o, h, l, c, v)
 Sym == << <<10, 12, 9, 11, 2>>,     \* up
@@ -41,8 +44,11 @@ Menu == << Cfg("SMA", "SMA_2", 2, 0, 0, "close"), Cfg("SMA", "SMA_3", 3, 0, 0, "
            Cfg("VWAP", "VWAP_2", 2, 0, 0, "close") >>
 
 VARIABLE raw
-Init == \E ks \in [1..MaxLen -> 1..Len(Sym)] : raw = [i \in 1..MaxLen |-> MkSym(ks[i], i)]
-Next == UNCHANGED raw
+\* the stream grows by one candle per step (every prefix is a state, so TLC's workers share the
+\* evaluation of the invariants)
+Init == raw = <<>>
+Next == /\ Len(raw) < MaxLen
+        /\ \E k \in 1..Len(Sym) : raw' = Append(raw, MkSym(k, Len(raw) + 1))
 Spec == Init /\ [][Next]_raw
 
 Engine(c) == Column(Batch(raw, <<c>>), c.name)
